@@ -439,7 +439,8 @@ def _run_check(pid, tier, seed, mod, ctx, t0):
     if hasattr(mod, "post"):
         mod.post(tot, ctx)          # e.g. abstract fixed point, cross-unit checks
     # vacuity guards
-    missing = [f for f in getattr(mod, "REQUIRED_FLAGS", []) if tot.flags.get(f, 0) < 1]
+    required = list(getattr(mod, "REQUIRED_FLAGS", [])) + (["numpy_integer_ticks"] if getattr(mod, "TICK_EVERY", 0) else [])
+    missing = [f for f in required if tot.flags.get(f, 0) < 1]
     findings = load_findings(pid)
     tot.viols.sort(key=lambda v: (v.order, v.sig))
     new, known_lines, seen_sig = [], {}, set()
